@@ -46,7 +46,27 @@ ErrVal(t, i, f) ==
              ELSE IF ~st.same THEN 2923                     \* cells, genes or matrix of the valid file are not the expected ones
              ELSE IF st.rec # r.file.rec THEN 2924          \* recorded number of mapped genes differs
              ELSE ErrVal(t, i + 1, r.file)
+\* datasets: {"kind":"datasets", "labels":[[chars]], "ok":b, "files":[{"label":[chars], "file":[chars]}],
+\*            "merged":b (merged file named <stem>.combined<suffix>), "additive":b,
+\*            "census":[{"total":n, "n":[per cluster]}] in path order, "mergedn":[..], "matches":[[file indices]..]}
+ErrData(t) ==
+    LET L == SRng(t.labels)
+        o == DatasetOutcome(L) IN
+    IF t.ok # (o = "ok") THEN 2931                           \* accepted / refused against the rule
+    ELSE IF ~t.ok THEN 0
+    ELSE IF {x.label : x \in SRng(t.files)} # L THEN 2932    \* a dataset without a file / a file without a dataset
+    ELSE IF \E x \in SRng(t.files) : x.file # DatasetFiles(L)[x.label] THEN 2933      \* a file name differs
+    ELSE IF ~t.merged THEN 2934                              \* merged file missing / misnamed
+    ELSE IF ~t.additive THEN 2935                            \* per-dataset files do not add up to the run that does not split
+    ELSE IF t.census = <<>> THEN 0                           \* (call not run in full)
+    ELSE LET fs == [i \in 1..Len(t.census) |->
+                      [total |-> t.census[i].total, n |-> [c \in 1..Len(t.census[i].n) |-> t.census[i].n[c]]]] IN
+         IF \E c \in 1..Len(t.mergedn) :
+               \/ t.mergedn[c] # fs[Picked(fs, c)].n[c]
+               \/ Picked(fs, c) \notin SRng(t.matches[c]) THEN 2936    \* a merged row is not the row of the file the rule picks
+         ELSE 0
 Err(t) == IF t.kind = "names" THEN ErrNames(t)
+          ELSE IF t.kind = "datasets" THEN ErrData(t)
           ELSE IF t.kind = "otf" THEN ErrOtf(t)
           ELSE ErrVal(t, 1, [fixed |-> t.fixed, unk |-> t.unk, rec |-> None3])
 ASSUME \A i \in 1..(2 * N) : TLCSet(i, 0)
